@@ -912,7 +912,7 @@ pub fn suite_cap(ctx: &mut Ctx) {
                     continue;
                 }
                 let n = r / period.len();
-                let body: Vec<u32> = (0..n).flat_map(|_| period.iter().copied()).chain(period.iter().take(period.len() / 2 + pi % 2).copied()).collect();
+                let body: Vec<u32> = (0..n).flat_map(|_| period.iter().copied()).chain(period.iter().take([0usize, 1, 1][pi]).copied()).collect();
                 let mut old: Vec<u32> = vec![99];
                 old.extend_from_slice(&body);
                 old.push(77);
